@@ -90,6 +90,8 @@ func cfgC17(t *rapid.T) gen.ProgCfg {
 	cfg.PEmbedAsg = 25
 	cfg.PPar = 10
 	cfg.PBadLit = gen.Pick(t, "pbadlit", []int{0, 0, 2})
+	cfg.PBadBind = 8
+	cfg.Names = []string{"a", "b", "c", "_d", "_", "e_"}
 	return cfg
 }
 
